@@ -191,7 +191,7 @@ def _log_ok(urls, rstatus_of):
     return True
 
 
-def _concurrent_origin(p1, a1, p2, a2, pg1, pg2, robots_status_i, same_origin):
+def _concurrent_origin(p1, a1, p2, a2, pg1, pg2, robots_status_i, same_origin, d0=1, d1=1):
     """Two items in flight at once (concurrency 2), schedules within a preemption bound: no URL of an origin is requested before a
     robots.txt fetch for it has COMPLETED, none after it is requested that robots.txt disallows, and robots.txt is not requested
     again once a fetch of it has completed (fetches already under way when it completes are tolerated)."""
@@ -202,6 +202,8 @@ def _concurrent_origin(p1, a1, p2, a2, pg1, pg2, robots_status_i, same_origin):
     p2 = pick(list(range(41)), p2)
     a2 = pick([1, 2], a2 - 1)
     rstatus = pick([200, 404], robots_status_i)
+    d0 = pick([0, 1, 2, 3, 4], d0)
+    d1 = pick([0, 1, 2, 3, 4], d1)
     u1 = 'http://a.example' + pick(_PAGES, pg1)
     u2 = ('http://a.example' if same_origin else 'http://b.example') + pick(_PAGES, pg2)
     if u1 == u2:
@@ -222,6 +224,7 @@ def _concurrent_origin(p1, a1, p2, a2, pg1, pg2, robots_status_i, same_origin):
         _install_tempfiles()
         client = stubs.StubHTTPClient(answer=answer)
         client.yields = True
+        client.acquire_delay = lambda nth: (d0 if nth == 0 else (d1 if nth == 1 else 1))    # how long the first two sessions wait for a connection
         client.body_for = lambda resp: _RULES if resp.request.url_info.path == '/robots.txt' else b''
         checker = RobotsTxtChecker(web_client=WebClient(http_client=client))
         env = stubs.build_web(client, filters=[F.SchemeFilter()], robots_checker=checker)
@@ -446,14 +449,16 @@ HARNESSES = [
       doc='WebProcessorSession.process over 2 (thorough 3) URLs on 1-2 origins differing in scheme / host / port, in symbolic order: in the '
           'request log the robots.txt of an origin comes strictly before any other URL of that origin and at most once; disallowed URLs '
           'are never requested (skipped); with a 503 nothing of the origin is requested and the items end in error (postponed)'),
-    H('concurrent_origin', '_concurrent_origin', 'p1: int, a1: int, p2: int, a2: int, pg1: int, pg2: int, robots_status_i: int, same_origin: bool',
-      pre=['0 <= p1 <= 20 and 1 <= a1 <= 2 and p1 < p2 <= 40 and 1 <= a2 <= 2 and 0 <= pg1 <= 2 and 0 <= pg2 <= 2 and 0 <= robots_status_i <= 1'],
-      parts=[{'tag': 'same' if s_ else 'two', 'fix': {'same_origin': str(s_), 'p2': '40', 'a2': '1', 'robots_status_i': '0'}} for s_ in (True, False)],
-      timeout={'quick': 250, 'thorough': 900}, path_timeout=30, samples=[(0, 1, 40, 1, 0, 1, 0, True), (3, 1, 40, 1, 0, 2, 0, False)],
+    H('concurrent_origin', '_concurrent_origin', 'p1: int, a1: int, p2: int, a2: int, pg1: int, pg2: int, robots_status_i: int, same_origin: bool, d0: int, d1: int',
+      pre=['0 <= p1 <= 20 and 1 <= a1 <= 2 and p1 < p2 <= 40 and 1 <= a2 <= 2 and 0 <= pg1 <= 2 and 0 <= pg2 <= 2 and 0 <= robots_status_i <= 1 and 0 <= d0 <= 4 and 0 <= d1 <= 4'],
+      parts=[{'tag': 'same' if s_ else 'two', 'fix': {'same_origin': str(s_), 'p2': '40', 'a2': '1', 'robots_status_i': '0', 'd0': '1', 'd1': '1'}} for s_ in (True, False)]
+      + [{'tag': 'slow_pool', 'fix': {'same_origin': 'True', 'p2': '40', 'a2': '1', 'robots_status_i': '0', 'p1': '0', 'a1': '1', 'pg1': '0'}}],
+      timeout={'quick': 250, 'thorough': 900}, path_timeout=30, samples=[(0, 1, 40, 1, 0, 1, 0, True, 1, 1), (3, 1, 40, 1, 0, 2, 0, False, 1, 1), (0, 1, 40, 1, 0, 1, 0, True, 0, 4)],
       need=['same', 'two-origins'],
       funcs=['wpull/protocol/http/robots.py:RobotsTxtChecker.can_fetch', 'wpull/protocol/http/robots.py:RobotsTxtChecker.fetch_robots_txt',
              'wpull/processor/web.py:WebProcessorSession._process_robots'],
-      doc='two items of one or two new origins processed concurrently on a choice-driven loop (network round trips suspend), schedules '
+      doc='two items of one or two new origins processed concurrently on a choice-driven loop (waiting for a pooled connection - 0 to 4 '
+          'loop turns per session - and network round trips suspend), schedules '
           'within a preemption bound: nothing of an origin is requested before a robots.txt fetch for it completed, nothing disallowed '
           'is requested, robots.txt is not requested again after a fetch of it completed'),
     H('redirect_target', '_redirect_target', 'o1: int, o2: int, p2: int, code_i: int, two_hops: bool, robots2_i: int',
